@@ -13,7 +13,7 @@ pub fn worlds_for(id: &str, quick: bool) -> Vec<(&'static str, Cfg, u8)> {
             // members, managers and a scope map between existing entries; every delete / revive
             (
                 "populated",
-                Cfg { slots: vec![0, 2, 3, 5], precreate: vec![0, 2, 3, 5], pre_ops: vec![Op::AddMember(2, 0), Op::AddMember(3, 2), Op::SetManager(2, 0), Op::SetScopeMap(3)], refs: true, dynamic: false, purge: !quick, filters: vec![0], props: props.clone() },
+                Cfg { slots: vec![0, 2, 3, 5], precreate: vec![0, 2, 3, 5], pre_ops: vec![Op::AddMember(2, 0), Op::AddMember(3, 2), Op::SetManager(2, 0), Op::SetScopeMap(3), Op::SetClaimMaps(2)], refs: true, dynamic: false, purge: !quick, filters: vec![0], props: props.clone() },
                 if quick { 2 } else { 4 },
             ),
             // references to entries in the bin and beyond: one person already deleted
